@@ -316,7 +316,7 @@ def units(root):
     from . import c03
     shared_c03 = [u for u in c03.units(root) if u.name in ("data replacement", "parameter constraints")]
     from . import c14
-    shared_c14 = [u for u in c14.units(root) if u.name in ("GaussianMatrixParameterConstraint.__init__", "MatrixGaussianError.__init__")]
+    shared_c14 = [u for u in c14.units(root) if u.name in ("GaussianMatrixParameterConstraint.__init__", "MatrixGaussianError.__init__", "MatrixGaussianError helpers")]
     return [Unit("SimpleGaussianError.__init__ guards", u_error_ctor_guards), Unit("MatrixGaussianError correlation-matrix guards", u_matrix_error_guards),
             Unit("DataContainerBase._add_error_object", u_add_error_object), Unit("CostFunction_NegLogLikelihood.is_data_compatible", u_poisson_compat),
             Unit("XYContainer._find_axis_raise", u_find_axis), Unit("NexusFitter.set_fit_parameter_values", u_set_fit_parameter_values), Unit("FitBase constraint / limit names", u_fit_names),
